@@ -40,26 +40,30 @@ func runC09(r *Run) {
 	mf := newC09fn(r, "tls.marshalField", 1, post)
 	rv := newC09fn(r, "tls.readVarUint", -1, post)
 	um := newC09fn(r, "tls.UnmarshalWithParams", -1, post)
-	r.Rule("C09.R1")
-	c09R1(r, pf, um)
-	r.Rule("C09.R2")
-	c09R2(r, pf, mf, rv)
-	r.Rule("C09.R3")
-	c09R3(r, pf, mf)
-	r.Rule("C09.R4")
-	c09R4(r, pf, mf, rv)
-	r.Rule("C09.R5")
-	c09R5(r, pf, rv, um)
-	r.Rule("C09.R6")
-	c09R6(r, pf, mf)
+	// a rule whose engine meets a code shape it was not written for must not take the whole
+	// check down (nor pass): it ends with one failed "undecided" obligation and the other rules
+	// are still evaluated
+	guarded := func(rule string, f func()) {
+		r.Rule(rule)
+		defer func() {
+			if x := recover(); x != nil {
+				r.Rule(rule)
+				r.Fail("engine:"+rule, "-", fmt.Sprintf("undecided: the rule could not be evaluated on this shape of the codec (%v)", x))
+			}
+		}()
+		f()
+	}
+	guarded("C09.R1", func() { c09R1(r, pf, um) })
+	guarded("C09.R2", func() { c09R2(r, pf, mf, rv) })
+	guarded("C09.R3", func() { c09R3(r, pf, mf) })
+	guarded("C09.R4", func() { c09R4(r, pf, mf, rv) })
+	guarded("C09.R5", func() { c09R5(r, pf, rv, um) })
+	guarded("C09.R6", func() { c09R6(r, pf, mf) })
 
 	r.NilArgsRule("C09.R7", "tls")
 
-	r.Rule("C09.R8")
-	c09FreshVector(r)
-
-	r.Rule("C09.R9")
-	c09R9(r, pf, mf, rv, um)
+	guarded("C09.R8", func() { c09FreshVector(r) })
+	guarded("C09.R9", func() { c09R9(r, pf, mf, rv, um) })
 }
 
 // ---- R1: one offset-relative base ------------------------------------------------------
@@ -566,8 +570,13 @@ func c09R2enc(r *Run, mf *c09fn) {
 			for _, c := range callsIn(mf, sliceCase, "tls.marshalField") {
 				ic, isIdx := c.Call.Args[1].(*ssa.Call)
 				if isIdx && CalleeOf(ic) == "(reflect.Value).Index" && ic.Call.Args[0] == ssa.Value(fn.Params[1]) && dat.raw == "(*bytes.Buffer).Bytes("+r.D.D(c.Call.Args[0])+")" && r.D.D(c.Call.Args[2]) == "nil" {
-					if ph, isPhi := ic.Call.Args[1].(*ssa.Phi); isPhi && isInduction(ph) {
-						okEl = true
+					if ph, isPhi := ic.Call.Args[1].(*ssa.Phi); isPhi {
+						// … for every i below v.Len()
+						for _, lc := range callsIn(mf, sliceCase, "(reflect.Value).Len") {
+							if lc.Call.Args[0] == ssa.Value(fn.Params[1]) && mf.counterCovers(ph, c.Block(), e.lin(lc)) {
+								okEl = true
+							}
+						}
 					}
 				}
 			}
